@@ -48,6 +48,10 @@ def shards(tier, seed):
     # can preempt between any two statements, for races on in-memory state that file-system-level points cannot split
     line_scns = list(pairs)
     random.Random(seed * 1000 + 71).shuffle(line_scns)
+    # two contenders + a third party on an unrelated identifier that shares their condition (a stray wake-up)
+    wake = [sc.to_json() for sc in P.object_wakeup_triples()]
+    for c, s in zip(chunk(wake, len(wake)), split_seeds(seed + 73, len(wake))):
+        out.append((c, 1, 20 if tier == "quick" else 60, 10 if tier == "quick" else 60, s, 500 if tier == "quick" else 4000))
     if tier == "quick":
         for c, s in zip(chunk(pairs, n * 2), seeds):
             out.append((c, 1, 6, 0, s, None))
